@@ -306,6 +306,9 @@ def _extra_pos(st):
 def sync_method(ctx, obj, name, args, kwargs):
     from .engine import Blocked
     k, st = obj.kind, obj.st
+    for fld in ("flag", "held"):
+        if fld in st and not isinstance(st[fld], bool):
+            st[fld] = bool(ctx.truth(st[fld]))      # a symbolic initial state is decided here (case split)
     if k == "queue":
         if name in ("put", "put_nowait"):
             st["items"].append(args[0])
